@@ -508,7 +508,12 @@ def monotone_direction(product, call, s, m, t):
                 flip = -1 if (product == "european_binary" and side != call) else 1
             signs = set()
             for v in MONO_GRID:
-                g = flip * B.greek("vega", product, S, M, 1, t, v, side)
+                if product == "lookback":
+                    # same idea: differentiate the volatility-dependent part of the price (price minus the
+                    # intrinsic value max(M - K, 0)), which keeps its relative precision
+                    g = mp.diff(lambda x: B.lookback_time_value(S, M, 1, t, x), mp.mpf(v))
+                else:
+                    g = flip * B.greek("vega", product, S, M, 1, t, v, side)
                 signs.add(1 if g > 0 else (-1 if g < 0 else 0))
                 if len(signs) > 1:
                     break
